@@ -121,7 +121,7 @@ class Contract:
     def __init__(self, name, fn, params, result=None, requires=None, ensures=None, raises=None,
                  modifies=None, loops=None, decreases=None, depth=None, assumed=False,
                  raises_post=None, pure=False, locals_types=None, cls=None, ghost_args=None,
-                 may_raise_any=False, notes='', allow_implicit=()):
+                 may_raise_any=False, notes='', allow_implicit=(), mutates=()):
         self.name, self.fn = name, getattr(fn, '__func__', fn)
         self.params, self.result = params, result
         self.requires, self.ensures = requires, ensures
@@ -137,6 +137,7 @@ class Contract:
         self.may_raise_any = may_raise_any
         self.allow_implicit = tuple(allow_implicit)
         self.locals_types = locals_types or {}
+        self.mutates = tuple(mutates)     # list/dict PARAMETERS the function may mutate in place
         self.notes = notes
 
 
@@ -159,6 +160,11 @@ class Cx:
         self.ctx, self.args, self._old, self._new = ctx, args, old_heap, new_heap
         self.result, self.L, self.exc = result, L, exc
         self.w = ctx.world
+        self.arg0 = {}        # entry-state terms of mutable container arguments (name -> [terms])
+
+    def old_arg(self, name):
+        """terms of a list/dict argument as they were on entry"""
+        return self.arg0.get(name, self.args[name].terms())
 
     def a(self, name):
         v = self.args[name]
